@@ -26,6 +26,8 @@ partial def toEvents : List Line → List (Option Ev × String) → List (Option
       | [] => bad ()
     match l.site with
     | "ag.yield" => toEvents rest acc
+    -- hook lines of the follow-up C09t (fine model `barriert`): stutter steps of this model
+    | "bar.adjld" | "bar.adjv" | "bar.adjst" | "bar.block" | "bar.spinok" => toEvents rest acc
     | "inv.arrive" => push (.inv t (.arrive l.a.toNat))
     | "inv.wait" => push (.inv t .wait)
     | "inv.aw" => push (.inv t .aw)
